@@ -128,9 +128,9 @@ HashFaithful(S) == \A a, b \in {o \in S : o.h # 0} : a.id = b.id => ((a.h = b.h)
 
 UniqueIds(S) == \A a, b \in NonEmptyId(S) : a.id = b.id => a = b
 
-Env(s) ==
+\* what the caller of the diff guarantees
+EnvInput(s) ==
   /\ Consistent(Listed(s), Remote(s), s.last)
-  /\ HashFaithful(Listed(s) \cup Remote(s))
   /\ UniqueIds(Listed(s)) /\ UniqueIds(Remote(s)) /\ UniqueIds(s.sec)
   \* the listing is the replicated part of the store plus legacy entries that have no id
   /\ NonEmptyId(Listed(s)) = {o \in s.sec : ~o.lo}
@@ -141,6 +141,9 @@ Env(s) ==
   /\ (~SkipsEmptyIds(s.kind) => \A o \in Listed(s) \cup Remote(s) : o.id # 0)
   /\ (s.kind = "acl" => \A o \in NonEmptyId(Listed(s) \cup Remote(s)) : o.h # 0)
   /\ \A o \in Listed(s) \cup Remote(s) : ~o.lo
+
+\* ... and what the hash functions (SetHash, HashConfigEntry) guarantee
+Env(s) == EnvInput(s) /\ HashFaithful(Listed(s) \cup Remote(s))
 
 (* ---- the property ---------------------------------------------------------- *)
 \* the replicated set of the secondary after the round equals the primary's (id + content)
